@@ -93,6 +93,11 @@ static void blk_malformed(void) {
 			uint8_t b[440]; size_t l = 0; l += der_put_uint(b + l, e1, 32); l += der_put_uint(b + l, e1 + 32, 32); l += der_put_tlv(b + l, 0x04, end ? e3 : e3 + 1, 31); l += der_put_tlv(b + l, 0x04, e2, n); size_t ml = der_put_tlv(m, 0x30, b, l); offer(end ? "malformed:c3-trailing-zero-cut" : "malformed:c3-leading-zero-cut", d, m, ml);
 			uint8_t e33[33]; memset(e33, 0, 33); memcpy(e33 + (end ? 0 : 1), e3, 32); l = 0; l += der_put_uint(b + l, e1, 32); l += der_put_uint(b + l, e1 + 32, 32); l += der_put_tlv(b + l, 0x04, e33, 33); l += der_put_tlv(b + l, 0x04, e2, n); ml = der_put_tlv(m, 0x30, b, l); offer(end ? "malformed:c3-zero-appended" : "malformed:c3-zero-prepended", d, m, ml);
 			ml = enc_ct(m, e1, e3, e2, n); offer("malformed:c3-with-zero-octet-untouched", d, m, ml); }
+		/* a key stream whose LAST (partial) 32-byte block is all zero while the stream as a whole is not: plaintext lengths 32j+1 with a zero
+		   last key-stream octet (nonce search). Such a ciphertext is perfectly valid (only an ALL-zero stream is refused by the standard). */
+		if (li == 0 && vh_next()) { static const size_t KL[] = { 33, 65, 225 }; for (int q = 0; q < 3; q++) { uint8_t e1[64], e3[32], e2[256]; size_t ln = KL[q]; int got = 0; uint8_t kk2[32]; for (unsigned kv = 9000; kv < 13000 && !got; kv++) { BN_set_word(t, 0x27d4eb2fu * kv + d); bn_to_be(kb, t); if (sr_encrypt(PUB[d], kb, PT[1], ln, e1, e3, e2) && (e2[ln - 1] ^ PT[1][ln - 1]) == 0) { got = 1; memcpy(kk2, kb, 32); } }
+			if (!got) { vh_obs("no nonce with a zero last key-stream octet found for length %zu", ln); continue; } size_t ml = enc_ct(m, e1, e3, e2, ln); offer("malformed:valid-with-zero-last-keystream-block", d, m, ml);
+			uint8_t lc[420]; size_t lcl = 0; script_k(kk2, 2); int r = sm2_encrypt(&PUBKEYS[d], PT[1], ln, lc, &lcl); vh_eval(vh_hash(kk2, 32, 77 + q)); if (r != 1 || lcl != ml || memcmp(lc, m, ml)) { vh_viol("C02:encrypt:nonce-with-zero-last-keystream-block-not-used-as-drawn", "\"len\":%zu,\"ret\":%d", ln, r); } } }
 		/* the LARGEST ciphertext the interfaces admit (255-byte plaintext, both C1 coordinates with a sign octet = SM2_MAX_CIPHERTEXT_SIZE) followed by
 		   extra bytes: the streaming decryptor's buffer is exactly that large, so this is where "input too long" and "trailing bytes" meet */
 		if (li == 2 && vh_next()) { uint8_t e1[64], e3[32], e2[256]; int got = 0; for (unsigned kv = 7000; kv < 7400 && !got; kv++) { BN_set_word(t, 0xc2b2ae35u * kv + d); bn_to_be(kb, t); if (sr_encrypt(PUB[d], kb, PT[2], 255, e1, e3, e2) && (e1[0] & 0x80) && (e1[32] & 0x80)) got = 1; }
